@@ -39,6 +39,20 @@ Record world := {
   qunmaps : list Z;      (* ghost: queue ids unmapped + unlinked *)
   faults : nat }.        (* accesses through a nil queueManager / unmapped memory (SIGSEGV / panic) *)
 
+(* what the dispatcher sees on a session's connection (connEventHandler.handleEvent): the epoll event
+   bits and, if it gets as far as onReadReady, the outcome of the first read(2).  After the peer's
+   death the read returns 0 when the peer had consumed everything, and ECONNRESET when bytes this end
+   wrote were still unread in the peer's socket. *)
+Inductive rdout := RdData | RdAgain | RdEOF | RdErr.
+Record epev := { e_rdhup : bool; e_in : bool; e_read : rdout }.
+
+(* does handleEvent report the remote close?  EPOLLRDHUP is tested FIRST; onReadReady reports it only
+   for read = 0 — a read error returns silently (`if errCode != 0 { return }`, err still nil) *)
+Definition reports_remote_close (ev : epev) : bool :=
+  if e_rdhup ev then true
+  else if e_in ev then match e_read ev with RdEOF => true | _ => false end
+  else false.
+
 Inductive label :=
   | LOpen (p q : Z) (nstreams : nat)  (* a new session on buffer path p with its own queue q *)
   | LClose (i : nat)                  (* Session.Close / exitErr called by anyone, any number of times *)
@@ -47,6 +61,7 @@ Inductive label :=
   | LCbBegin (i k : nat) | LCbEnd (i k : nat)  (* OnData starts / returns on stream k *)
   | LEnter (i : nat)                  (* a user thread passes Flush's state check on an opened stream *)
   | LAccess (i : nat)                 (* ... and reaches s.session.sendQueue().put / wakeUpPeer *)
+  | LEvent (i : nat) (ev : epev)      (* an epoll event on session i's connection *)
   | LOpenFail (p : Z).                (* newSession on buffer path p whose handshake fails: initMemManager took a
                                          reference (or mapped the manager), the error path drops exactly that
                                          reference with addGlobalBufferManagerRefCount(path, -1) *)
@@ -114,6 +129,19 @@ Definition close_sess (s : sess) : sess :=
           streams := map notify (streams s); conn_open := conn_open s; bm := bm s; qmap := qmap s;
           inflight := inflight s |}.
 
+(* onRemoteClose (-> exitErr -> Close) followed by deferredClose of the connection *)
+Definition remote_close (w : world) (i : nat) : world :=
+      match nth_error (ss w) i with
+      | Some s =>
+          if conn_open s then     (* the handler only exists while the connection is registered *)
+            let s' := close_sess s in
+            set_sess w i {| sd := sd s'; chclosed := chclosed s'; posted := posted s'; cleaned := cleaned s';
+                            streams := streams s'; conn_open := false; bm := bm s'; qmap := qmap s';
+                            inflight := inflight s' |}
+          else w
+      | None => w
+      end.
+
 Definition step (w : world) (l : label) : world :=
   match l with
   | LOpen p q n =>
@@ -127,17 +155,8 @@ Definition step (w : world) (l : label) : world :=
       | Some s => set_sess w i (close_sess s)
       | None => w
       end
-  | LRemote i =>
-      match nth_error (ss w) i with
-      | Some s =>
-          if conn_open s then     (* the handler only exists while the connection is registered *)
-            let s' := close_sess s in
-            set_sess w i {| sd := sd s'; chclosed := chclosed s'; posted := posted s'; cleaned := cleaned s';
-                            streams := streams s'; conn_open := false; bm := bm s'; qmap := qmap s';
-                            inflight := inflight s' |}
-          else w
-      | None => w
-      end
+  | LRemote i => remote_close w i
+  | LEvent i ev => if reports_remote_close ev then remote_close w i else w
   | LLambda i =>
       match nth_error (ss w) i with
       | Some s =>
